@@ -325,6 +325,16 @@ def run_case(case, ctx):
         w.update({"track1": a, "track2": b, "dim": dim, "p": label_p})
         return violated(w, sig, nontrivial, sorted(cls))
 
+    if case.get("idx", 0) % 4 == 2:
+        # error path first: the same matching requests with an observation whose coordinates are undefined cannot be
+        # honoured (the fast variant fails while tracing its path back); what they raise is not judged
+        bad = gen.make_track([tuple(q) for q in a])
+        bad.getObs(n1 // 2).position.setX(float("nan"))
+        bad.getObs(n1 // 2).position.setY(float("nan"))
+        M.call(C.match, bad, tb, C.MODE_MATCHING_FDTW, 2, dim, False)
+        M.call(C.match, tb, bad, C.MODE_MATCHING_FDTW, 1, dim, False)
+        M.call(C.match, bad, tb, C.MODE_MATCHING_DTW, 2, dim, False)
+        cls.add("after_requests_that_failed")
     for p in PS:
         opt = dp_optimum(D, p)
         if small:
@@ -481,7 +491,7 @@ def classify(case, witness):
 
 # floors for the call-history workloads added in session 3 (a run in which they were silently skipped is inconclusive)
 _floors_base = floors
-_FLOORS_EXTRA = {'classes': {'edited_in_place_history': 10000, 'rematch_history': 10000, 'plot_option': 300}}
+_FLOORS_EXTRA = {'classes': {'edited_in_place_history': 10000, 'rematch_history': 10000, 'plot_option': 300, 'after_requests_that_failed': 5000}}
 
 
 def floors(tier):
